@@ -12,11 +12,14 @@ VARIABLE i
 
 RECURSIVE SumTo(_, _)
 SumTo(f, n) == IF n = 0 THEN 0 ELSE f[n] + SumTo(f, n - 1)
-UTerm(uu, a, n2) == IF uu > 0 THEN (IF a > 0 THEN 2 * uu ELSE 0) ELSE (IF a = n2 THEN 2 * uu ELSE 0)
-LTerm(uu, a, n2) == IF uu > 0 THEN (IF a = n2 THEN 2 * uu ELSE 0) ELSE (IF a > 0 THEN 2 * uu ELSE 0)
-USL(c, g, t) == SumTo([l \in 1..Len(c.u) |-> UTerm(c.u[l][t], g.a[l], 2 * g.n)], Len(c.u))
-LSL(c, g, t) == SumTo([l \in 1..Len(c.u) |-> LTerm(c.u[l][t], g.a[l], 2 * g.n)], Len(c.u))
-AllFixed(g) == \A l \in 1..Len(g.a) : g.a[l] = 0 \/ g.a[l] = 2 * g.n
+\* ploidy of an observed population (copies of each locus per individual); observations without the field are diploid
+Pl(g) == IF "pl" \in DOMAIN g THEN g.pl ELSE 2
+Copies(g) == Pl(g) * g.n
+UTerm(uu, a, nc, P) == IF uu > 0 THEN (IF a > 0 THEN P * uu ELSE 0) ELSE (IF a = nc THEN P * uu ELSE 0)
+LTerm(uu, a, nc, P) == IF uu > 0 THEN (IF a = nc THEN P * uu ELSE 0) ELSE (IF a > 0 THEN P * uu ELSE 0)
+USL(c, g, t) == SumTo([l \in 1..Len(c.u) |-> UTerm(c.u[l][t], g.a[l], Copies(g), Pl(g))], Len(c.u))
+LSL(c, g, t) == SumTo([l \in 1..Len(c.u) |-> LTerm(c.u[l][t], g.a[l], Copies(g), Pl(g))], Len(c.u))
+AllFixed(g) == \A l \in 1..Len(g.a) : g.a[l] = 0 \/ g.a[l] = Copies(g)
 
 GenVerdict(c, k) ==
     LET g == c.gens[k]
@@ -36,7 +39,7 @@ StepVerdict(c, k) ==
     LET g == c.gens[k]
         h == c.gens[k + 1]
         T == 1..Len(c.beta)
-    IN IF \E l \in 1..Len(g.a) : (g.a[l] = 0 /\ h.a[l] # 0) \/ (g.a[l] = 2 * g.n /\ h.a[l] # 2 * h.n)
+    IN IF \E l \in 1..Len(g.a) : (g.a[l] = 0 /\ h.a[l] # 0) \/ (g.a[l] = Copies(g) /\ h.a[l] # Copies(h))
        THEN "lost-allele-reappeared"
        ELSE IF \E t \in T : h.usl1[t] > g.usl1[t] THEN "upper-limit-increased"
        ELSE IF \E t \in T : h.lsl1[t] < g.lsl1[t] THEN "lower-limit-decreased"
